@@ -3,12 +3,18 @@ package chainsm
 import (
 	"crypto/sha256"
 	"fmt"
+	"math"
 	"sort"
 
 	"github.com/elastos/Elastos.ELA/common"
+	"github.com/elastos/Elastos.ELA/core"
+	"github.com/elastos/Elastos.ELA/core/contract/program"
 	"github.com/elastos/Elastos.ELA/core/types"
 	ctypes "github.com/elastos/Elastos.ELA/core/types/common"
+	"github.com/elastos/Elastos.ELA/core/types/functions"
 	"github.com/elastos/Elastos.ELA/core/types/interfaces"
+	"github.com/elastos/Elastos.ELA/core/types/outputpayload"
+	"github.com/elastos/Elastos.ELA/core/types/payload"
 	"pgregory.net/rapid"
 
 	"verifharness/node"
@@ -348,7 +354,7 @@ func (m *Machine) payFrom(t *rapid.T, coins []node.Coin, atHeight uint32, kind s
 		amount = 0
 	}
 	outs := m.drawOuts(t, amount)
-	tx, err := m.N.Transfer(coins, outs, atHeight)
+	tx, err := m.transfer(t, coins, outs, atHeight)
 	if err != nil {
 		t.Fatalf("harness: Transfer: %v", err)
 	}
@@ -1140,7 +1146,7 @@ func (m *Machine) actPayWide(t *rapid.T) {
 		return
 	}
 	outs = append(outs, node.Out{To: m.N.Keys[src.KeyIdx].ProgramHash, Value: src.Value - sum - fee})
-	tx, err := m.N.Transfer([]node.Coin{*src}, outs, h)
+	tx, err := m.transfer(t, []node.Coin{*src}, outs, h)
 	if err != nil {
 		t.Fatalf("harness: wide Transfer: %v", err)
 	}
@@ -1154,4 +1160,36 @@ func (m *Machine) actPayWide(t *rapid.T) {
 	tn := m.buildBlock(t, m.ActiveTip, []*KnownTx{k}, true, "mine")
 	m.logf("  block h%d %s with the wide tx", tn.Height, short(tn.Hash))
 	m.deliver(tn, "", false)
+}
+
+// transfer is node.Transfer with a drawn Sequence per input (the outpoint, not
+// the sequence, identifies what is spent: conflicting spends of one outpoint
+// differ in Sequence about half the time).
+func (m *Machine) transfer(t *rapid.T, coins []node.Coin, outs []node.Out, atHeight uint32) (interfaces.Transaction, error) {
+	ins := make([]*ctypes.Input, 0, len(coins))
+	for _, c := range coins {
+		var seq uint32
+		switch rapid.IntRange(0, 5).Draw(t, "seq-kind") {
+		case 0, 1, 2:
+			seq = 0
+		case 3:
+			seq = 1
+		case 4:
+			seq = math.MaxUint32
+		default:
+			seq = rapid.Uint32().Draw(t, "seq")
+		}
+		ins = append(ins, &ctypes.Input{Previous: c.Op, Sequence: seq})
+	}
+	os := make([]*ctypes.Output, 0, len(outs))
+	for _, o := range outs {
+		os = append(os, &ctypes.Output{AssetID: core.ELAAssetID, Value: o.Value, ProgramHash: o.To,
+			Type: ctypes.OTNone, Payload: &outputpayload.DefaultOutput{}})
+	}
+	tx := functions.CreateTransaction(m.N.TxVersionAt(atHeight), ctypes.TransferAsset, 0, &payload.TransferAsset{},
+		[]*ctypes.Attribute{}, ins, os, 0, []*program.Program{})
+	if err := m.N.SignStandard(tx, coins); err != nil {
+		return nil, err
+	}
+	return tx, nil
 }
